@@ -182,19 +182,11 @@ def linesFit (col : Nat) : Str → Bool
   | c :: r => if c = 10 then decide (col ≤ 2048) && linesFit 0 r
               else linesFit (col + (if isTrailU c then 0 else 1)) r
 
-/-- what may follow a value: end of input, whitespace, or — in CIF 2.0, after a delimited value or a bare one —
-    a closing bracket or brace -/
+/-- what may follow a value of any presentation: end of input, whitespace, or — in CIF 2.0 — a closing bracket or brace -/
 def followOk (dia : Dialect) (ctx : Str) : Bool :=
   match ctx with
   | [] => true
   | c :: _ => isWs c || (dia == .cif2 && (c == 93 || c == 125))
-
-/-- what may follow presentation `p`: a whitespace-delimited value ends only at whitespace or at the end of input
-    (a closing bracket after it is admissible too in CIF 2.0, but is not covered by the theorems here) -/
-def followOkP (dia : Dialect) (p : Presentation) (ctx : Str) : Bool :=
-  match p with
-  | .bare => (match ctx with | [] => true | c :: _ => isWs c)
-  | _ => followOk dia ctx
 
 /-- what may follow a data name, a block/frame header or `loop_`: whitespace or the end of input -/
 def wsOrEnd (ctx : Str) : Bool := match ctx with | [] => true | c :: _ => isWs c
